@@ -21,6 +21,9 @@ pub fn shown_errors(r: &ExecResult) -> Vec<oracle::ErrMsg> {
         .filter(|m| m.level == "ERROR")
         .filter(|m| !m.text.starts_with("FATAL") && !m.text.starts_with("Init processing failed"))
         .filter(|m| !fatal_texts.iter().any(|f| f == m.text.trim_end()))
+        // the log line that explains a fatal (`Failed to parse system ID: Unknown system ID 254`, followed by
+        // `FATAL: Failed to parse system ID`) is part of that fatal as well
+        .filter(|m| !fatal_texts.iter().any(|f| !f.is_empty() && m.text.starts_with(&format!("{f}:"))))
         .map(|m| oracle::parse_err_text(&m.text))
         .collect()
 }
